@@ -344,6 +344,8 @@ const (
 )
 
 var universes = map[string]universe{
+	// tiny alphabet for a deep history search without state de-duplication
+	"tiny": {prefixes: []string{"/a", "/a/b"}, faces: []uint64{1}, origins: []uint64{0, 128}, costs: []uint64{1}, flags: []uint64{ci, cap_}},
 	// two nested prefixes with a gap, all flag combinations, two faces: explored to a fixpoint
 	"gap": {prefixes: []string{"/a", "/a/b/c"}, faces: []uint64{1, 2}, origins: []uint64{0}, costs: []uint64{1}, flags: []uint64{0, ci, cap_, ci | cap_}},
 	// root + chain, one face, two origins and costs (min-cost, per-origin removal)
@@ -385,6 +387,8 @@ func main() {
 			}
 			c = append(c, explore.Config{Name: "audit(no dedup) gap tree", BuildName: "gap tree", MaxDepth: ad + 1, MaxDev: -1, NoDedup: true})
 			c = append(c, explore.Config{Name: "audit(no dedup) chain ht2", BuildName: "chain ht2", MaxDepth: ad, MaxDev: -1, NoDedup: true})
+			c = append(c, explore.Config{Name: "history search (no dedup) tiny tree", BuildName: "tiny tree", MaxDepth: ad + 2, MaxDev: -1, NoDedup: true})
+			c = append(c, explore.Config{Name: "history search (no dedup) tiny ht1", BuildName: "tiny ht1", MaxDepth: ad + 2, MaxDev: -1, NoDedup: true})
 			return c
 		},
 		Budget: func(th bool) time.Duration {
